@@ -73,6 +73,20 @@ def Source.bytes : Source → Bytes
   | .buffer b => b
   | .stream s => s.bytes
 
+/-- what the application hands to `ObjectDesc::create_from_buffer / create_from_file / create_from_stream` -/
+inductive Supplied where
+  | buffer (content : Bytes)
+  | stream (s : Stream)
+
+/-- `ObjectDesc::create_*`: the source the block encoder will slice and the announced `transfer_length`.
+    The content encoding is applied BEFORE slicing, to the whole content (`ObjectDataSource::from_vec`:
+    `compress::compress_buffer(buffer, cenc)`); `compress` is flate2's output for (`cenc` as u8, content) - an explicit
+    parameter, nothing is assumed about it.  A stream cannot be content-encoded: creation is refused (`none`; D18
+    repaired, as `create_from_file(cache_in_ram = false)` always did). -/
+def objectSource (compress : Nat → Bytes → Bytes) (cenc : Nat) : Supplied → Option Source
+  | .buffer content => some (.buffer (if cenc = 0 then content else compress cenc content))
+  | .stream st => if cenc = 0 then some (.stream st) else none
+
 /-- what is fixed during a transfer: the object's OTI, `interleave_blocks`, `transfer_length` -/
 structure Params where
   codec : Codec
